@@ -7,12 +7,12 @@ import vlib, tungen, tlcsched, tunnel_check, router_props
 # those that do not end are time-boxed (BOXED) and report complete = false
 MC = {'C03': (['MC_C03_q.cfg', 'MC_C03_2s.cfg', 'MC_C03_tcp.cfg', 'MC_C05_ws.cfg'], ['MC_C03_q.cfg', 'MC_C03_2s.cfg', 'MC_C03_tcp.cfg', 'MC_C05_ws.cfg', 'MC_C03_t.cfg']),
       'C04': (['MC_C04_q.cfg'], ['MC_C04_q.cfg', 'MC_C05_wr.cfg', 'MC_C04_t.cfg']),
-      'C05': (['MC_C05_q.cfg', 'MC_C05_ws.cfg'], ['MC_C05_q.cfg', 'MC_C05_ws.cfg', 'MC_C05_wr.cfg', 'MC_C05_t.cfg']),
-      'C09': (['MC_C09_q.cfg'], ['MC_C09_q.cfg', 'MC_C09_m.cfg', 'MC_C09_t.cfg']),
+      'C05': (['MC_C05_q.cfg', 'MC_C05_ws.cfg'], ['MC_C05_q.cfg', 'MC_C05_ws.cfg', 'MC_C05_wf.cfg', 'MC_C05_wr.cfg', 'MC_C05_t.cfg']),
+      'C09': (['MC_C09_q.cfg', 'MC_C09_wf.cfg'], ['MC_C09_q.cfg', 'MC_C09_wf.cfg', 'MC_C09_m.cfg', 'MC_C09_t.cfg']),
       'C10': (['MC_C10_q.cfg'], ['MC_C10_q.cfg', 'MC_C10_m.cfg', 'MC_C10_b.cfg', 'MC_C10_t.cfg']),
       'C17': (['MC_C17_q.cfg'], ['MC_C17_q.cfg'])}
 BOXED = {'MC_C03_t.cfg', 'MC_C04_t.cfg', 'MC_C05_t.cfg', 'MC_C09_t.cfg', 'MC_C10_b.cfg', 'MC_C10_t.cfg'}
-SIM = {'C03': ['SIM_C03.cfg', 'SIM_tcp.cfg'], 'C04': ['SIM_C04.cfg', 'SIM_tcp.cfg'], 'C05': ['SIM_C05.cfg'], 'C09': ['SIM_C09.cfg'],
+SIM = {'C03': ['SIM_C03.cfg', 'SIM_tcp.cfg'], 'C04': ['SIM_C04.cfg', 'SIM_tcp.cfg'], 'C05': ['SIM_C05.cfg'], 'C09': ['SIM_C09.cfg', 'SIM_wf.cfg'],
        'C10': ['SIM_C10.cfg', 'SIM_all.cfg'], 'C17': ['SIM_C17.cfg']}
 
 ASSUME = {
@@ -208,6 +208,10 @@ def check(pid, tier):
         # step by step, so the events the specification predicts are compared with what the real client did
         confruns, st = tlcsched.generate(w, 'CONF_%s.cfg' % pid, ntlc, 80, seed + 1, first_id=base, tag='conf:CONF_%s.cfg' % pid,
                                          prefix_every=3 if tier == 'quick' else 2)
+        if pid in ('C05', 'C09', 'C04'):   # transient socket write errors: the specification says what each write site does with the error
+            wfc = 'CONF_wf5.cfg' if pid == 'C05' else 'CONF_wf.cfg'    # (C05 is about one connection epoch)
+            more, st = tlcsched.generate(w, wfc, ntlc // 3, 80, seed + 3, first_id=base + len(confruns), tag='conf:' + wfc)
+            confruns += more
         if pid == 'C03':     # the TCP clause: behaviours of the TCP-mode specification (no acknowledgements, one transmission per Send)
             more, st = tlcsched.generate(w, 'CONF_tcp.cfg', ntlc // 3, 80, seed + 2, first_id=base + len(confruns), tag='conf:CONF_tcp.cfg')
             confruns += more
